@@ -14,10 +14,12 @@ import (
 // specSortedViewF / specSortedViewE name that relation); everything below is
 // proved over the elements of `sorted`.
 
-//@ uninterpreted
-func specSortedViewF(sorted, list [][2]protoreflect.FieldNumber) bool { return len(sorted) == len(list) }
+// @ uninterpreted
+func specSortedViewF(sorted, list [][2]protoreflect.FieldNumber) bool {
+	return len(sorted) == len(list)
+}
 
-//@ uninterpreted
+// @ uninterpreted
 func specSortedViewE(sorted, list [][2]protoreflect.EnumNumber) bool { return len(sorted) == len(list) }
 
 // specFieldEnd is the inclusive end of a field range stored as [start, end).
@@ -31,8 +33,8 @@ func specFieldContains(r [2]protoreflect.FieldNumber, n protoreflect.FieldNumber
 	return r[0] <= n && n <= specFieldEnd(r)
 }
 
-//@ props C36
-//@ mode int
+// @ props C36
+// @ mode int
 func lemma_FieldEndExclusive(r [2]protoreflect.FieldNumber, n protoreflect.FieldNumber) {
 	requires(r[1] > -1<<31)
 	ensures(specFieldContains(r, n) == (r[0] <= n && n < r[1]))
@@ -58,7 +60,7 @@ func specEnumSortedOK(s [][2]protoreflect.EnumNumber) bool {
 
 // lazyInit: assumed (sync.Once + sort.Slice): p.sorted becomes List sorted by start.
 //
-//@ trusted
+// @ trusted
 func contract_FieldRanges_lazyInit(p *FieldRanges) (r *FieldRanges) {
 	requires(p != nil)
 	modifiesPtr(p)
@@ -69,7 +71,7 @@ func contract_FieldRanges_lazyInit(p *FieldRanges) (r *FieldRanges) {
 	return
 }
 
-//@ trusted
+// @ trusted
 func contract_EnumRanges_lazyInit(p *EnumRanges) (r *EnumRanges) {
 	requires(p != nil)
 	modifiesPtr(p)
@@ -80,13 +82,13 @@ func contract_EnumRanges_lazyInit(p *EnumRanges) (r *EnumRanges) {
 	return
 }
 
-//@ props C36
-//@ mode int
-//@ inline Start End
-//@ loop 1 invariant sameBase(ls, p.sorted) && 0 <= offsetIn(ls, p.sorted) && offsetIn(ls, p.sorted)+len(ls) <= len(p.sorted)
-//@ loop 1 invariant imp(specFieldSortedOK(p.sorted), forallIn(p.sorted, 0, offsetIn(ls, p.sorted), func(k int, e [2]protoreflect.FieldNumber) bool { return specFieldEnd(e) < n }))
-//@ loop 1 invariant imp(specFieldSortedOK(p.sorted), forallIn(p.sorted, offsetIn(ls, p.sorted)+len(ls), len(p.sorted), func(k int, e [2]protoreflect.FieldNumber) bool { return n < e[0] }))
-//@ loop 1 decreases len(ls)
+// @ props C36
+// @ mode int
+// @ inline Start End
+// @ loop 1 invariant sameBase(ls, p.sorted) && 0 <= offsetIn(ls, p.sorted) && offsetIn(ls, p.sorted)+len(ls) <= len(p.sorted)
+// @ loop 1 invariant imp(specFieldSortedOK(p.sorted), forallIn(p.sorted, 0, offsetIn(ls, p.sorted), func(k int, e [2]protoreflect.FieldNumber) bool { return specFieldEnd(e) < n }))
+// @ loop 1 invariant imp(specFieldSortedOK(p.sorted), forallIn(p.sorted, offsetIn(ls, p.sorted)+len(ls), len(p.sorted), func(k int, e [2]protoreflect.FieldNumber) bool { return n < e[0] }))
+// @ loop 1 decreases len(ls)
 func contract_FieldRanges_Has(p *FieldRanges, n protoreflect.FieldNumber) (r bool) {
 	requires(p != nil)
 	modifiesPtr(p)
@@ -98,13 +100,13 @@ func contract_FieldRanges_Has(p *FieldRanges, n protoreflect.FieldNumber) (r boo
 	return
 }
 
-//@ props C36
-//@ mode int
-//@ inline Start End
-//@ loop 1 invariant sameBase(ls, p.sorted) && 0 <= offsetIn(ls, p.sorted) && offsetIn(ls, p.sorted)+len(ls) <= len(p.sorted)
-//@ loop 1 invariant imp(specEnumSortedOK(p.sorted), forallIn(p.sorted, 0, offsetIn(ls, p.sorted), func(k int, e [2]protoreflect.EnumNumber) bool { return e[1] < n }))
-//@ loop 1 invariant imp(specEnumSortedOK(p.sorted), forallIn(p.sorted, offsetIn(ls, p.sorted)+len(ls), len(p.sorted), func(k int, e [2]protoreflect.EnumNumber) bool { return n < e[0] }))
-//@ loop 1 decreases len(ls)
+// @ props C36
+// @ mode int
+// @ inline Start End
+// @ loop 1 invariant sameBase(ls, p.sorted) && 0 <= offsetIn(ls, p.sorted) && offsetIn(ls, p.sorted)+len(ls) <= len(p.sorted)
+// @ loop 1 invariant imp(specEnumSortedOK(p.sorted), forallIn(p.sorted, 0, offsetIn(ls, p.sorted), func(k int, e [2]protoreflect.EnumNumber) bool { return e[1] < n }))
+// @ loop 1 invariant imp(specEnumSortedOK(p.sorted), forallIn(p.sorted, offsetIn(ls, p.sorted)+len(ls), len(p.sorted), func(k int, e [2]protoreflect.EnumNumber) bool { return n < e[0] }))
+// @ loop 1 decreases len(ls)
 func contract_EnumRanges_Has(p *EnumRanges, n protoreflect.EnumNumber) (r bool) {
 	requires(p != nil)
 	modifiesPtr(p)
@@ -116,8 +118,8 @@ func contract_EnumRanges_Has(p *EnumRanges, n protoreflect.EnumNumber) (r bool) 
 
 // ---------------------------------------------------------------- C35: validation of range tables
 
-//@ props C35
-//@ mode int
+// @ props C35
+// @ mode int
 func contract_isValidFieldNumber(n protoreflect.FieldNumber, isMessageSet bool) (ok bool) {
 	// documented field-number domain: 1 .. 2^29-1, MessageSet extends it to the int32 maximum
 	ensures(ok == (1 <= n && (n <= 1<<29-1 || isMessageSet)))
@@ -131,13 +133,13 @@ func specFieldNumbersOK(s [][2]protoreflect.FieldNumber, isMessageSet bool) bool
 	})
 }
 
-//@ props C35
-//@ mode int
-//@ inline Start End
-//@ loop 1 invariant p != nil && len(p.sorted) >= loopIndex
-//@ loop 1 invariant imp(loopIndex > 0, rp == fieldRange(p.sorted[loopIndex-1]))
-//@ loop 1 invariant forallIn(p.sorted, 0, loopIndex, func(k int, e [2]protoreflect.FieldNumber) bool { return 1 <= e[0] && (e[0] <= 1<<29-1 || isMessageSet) && 1 <= specFieldEnd(e) && (specFieldEnd(e) <= 1<<29-1 || isMessageSet) })
-//@ loop 1 invariant forallIn(p.sorted, 0, loopIndex, func(k int, e [2]protoreflect.FieldNumber) bool { return e[0] <= specFieldEnd(e) && forallIn(p.sorted, 0, k, func(j int, f [2]protoreflect.FieldNumber) bool { return specFieldEnd(f) < e[0] }) })
+// @ props C35
+// @ mode int
+// @ inline Start End
+// @ loop 1 invariant p != nil && len(p.sorted) >= loopIndex
+// @ loop 1 invariant imp(loopIndex > 0, rp == fieldRange(p.sorted[loopIndex-1]))
+// @ loop 1 invariant forallIn(p.sorted, 0, loopIndex, func(k int, e [2]protoreflect.FieldNumber) bool { return 1 <= e[0] && (e[0] <= 1<<29-1 || isMessageSet) && 1 <= specFieldEnd(e) && (specFieldEnd(e) <= 1<<29-1 || isMessageSet) })
+// @ loop 1 invariant forallIn(p.sorted, 0, loopIndex, func(k int, e [2]protoreflect.FieldNumber) bool { return e[0] <= specFieldEnd(e) && forallIn(p.sorted, 0, k, func(j int, f [2]protoreflect.FieldNumber) bool { return specFieldEnd(f) < e[0] }) })
 func contract_FieldRanges_CheckValid(p *FieldRanges, isMessageSet bool) (err error) {
 	requires(p != nil)
 	modifiesPtr(p)
@@ -149,12 +151,12 @@ func contract_FieldRanges_CheckValid(p *FieldRanges, isMessageSet bool) (err err
 	return
 }
 
-//@ props C35
-//@ mode int
-//@ inline Start End
-//@ loop 1 invariant p != nil && len(p.sorted) >= loopIndex
-//@ loop 1 invariant imp(loopIndex > 0, rp == enumRange(p.sorted[loopIndex-1]))
-//@ loop 1 invariant forallIn(p.sorted, 0, loopIndex, func(k int, e [2]protoreflect.EnumNumber) bool { return e[0] <= e[1] && forallIn(p.sorted, 0, k, func(j int, f [2]protoreflect.EnumNumber) bool { return f[1] < e[0] }) })
+// @ props C35
+// @ mode int
+// @ inline Start End
+// @ loop 1 invariant p != nil && len(p.sorted) >= loopIndex
+// @ loop 1 invariant imp(loopIndex > 0, rp == enumRange(p.sorted[loopIndex-1]))
+// @ loop 1 invariant forallIn(p.sorted, 0, loopIndex, func(k int, e [2]protoreflect.EnumNumber) bool { return e[0] <= e[1] && forallIn(p.sorted, 0, k, func(j int, f [2]protoreflect.EnumNumber) bool { return f[1] < e[0] }) })
 func contract_EnumRanges_CheckValid(p *EnumRanges) (err error) {
 	requires(p != nil)
 	modifiesPtr(p)
@@ -163,14 +165,14 @@ func contract_EnumRanges_CheckValid(p *EnumRanges) (err error) {
 	return
 }
 
-//@ props C35
-//@ mode int
-//@ inline Start End
-//@ loop 1 invariant 0 <= pi && pi <= len(rps) && 0 <= qi && qi <= len(rqs)
-//@ loop 1 invariant sameArray(rps, p.sorted) && len(rps) == len(p.sorted) && sameArray(rqs, q.sorted) && len(rqs) == len(q.sorted)
-//@ loop 1 invariant imp(specFieldSortedOK(rps) && specFieldSortedOK(rqs), forallIn(rps, 0, pi, func(k int, e [2]protoreflect.FieldNumber) bool { return forallIn(rqs, 0, len(rqs), func(l int, f [2]protoreflect.FieldNumber) bool { return specFieldEnd(e) < f[0] || specFieldEnd(f) < e[0] }) }))
-//@ loop 1 invariant imp(specFieldSortedOK(rps) && specFieldSortedOK(rqs), forallIn(rqs, 0, qi, func(l int, f [2]protoreflect.FieldNumber) bool { return forallIn(rps, 0, len(rps), func(k int, e [2]protoreflect.FieldNumber) bool { return specFieldEnd(e) < f[0] || specFieldEnd(f) < e[0] }) }))
-//@ loop 1 decreases len(rps)-pi+len(rqs)-qi
+// @ props C35
+// @ mode int
+// @ inline Start End
+// @ loop 1 invariant 0 <= pi && pi <= len(rps) && 0 <= qi && qi <= len(rqs)
+// @ loop 1 invariant sameArray(rps, p.sorted) && len(rps) == len(p.sorted) && sameArray(rqs, q.sorted) && len(rqs) == len(q.sorted)
+// @ loop 1 invariant imp(specFieldSortedOK(rps) && specFieldSortedOK(rqs), forallIn(rps, 0, pi, func(k int, e [2]protoreflect.FieldNumber) bool { return forallIn(rqs, 0, len(rqs), func(l int, f [2]protoreflect.FieldNumber) bool { return specFieldEnd(e) < f[0] || specFieldEnd(f) < e[0] }) }))
+// @ loop 1 invariant imp(specFieldSortedOK(rps) && specFieldSortedOK(rqs), forallIn(rqs, 0, qi, func(l int, f [2]protoreflect.FieldNumber) bool { return forallIn(rps, 0, len(rps), func(k int, e [2]protoreflect.FieldNumber) bool { return specFieldEnd(e) < f[0] || specFieldEnd(f) < e[0] }) }))
+// @ loop 1 decreases len(rps)-pi+len(rqs)-qi
 func contract_FieldRanges_CheckOverlap(p *FieldRanges, q *FieldRanges) (err error) {
 	requires(p != nil && q != nil && p != q)
 	modifiesPtr(p)
@@ -207,9 +209,9 @@ func specHasPresence(fd *Field) bool {
 		fd.L1.ContainingOneof != nil
 }
 
-//@ props C11
-//@ mode int
-//@ inline filedesc.Field.IsExtension
+// @ props C11
+// @ mode int
+// @ inline filedesc.Field.IsExtension
 func contract_Field_HasPresence(fd *Field) (r bool) {
 	requires(fd != nil)
 	// descriptor invariant (established by the builders): the message type is set exactly for
